@@ -76,7 +76,9 @@ def setup():
     tmp = tempfile.mkdtemp(prefix="c12_")
     atexit.register(shutil.rmtree, tmp, True)
     for name, mode in (("real_exe", 0o755), ("plain_file", 0o644), ("lit (deleted)", 0o755), ("my exe", 0o755),
-                       ("exe_long_name_0123456789", 0o755)):
+                       ("exe_long_name_0123456789", 0o755),
+                       # executable for some, not for "others" (what counts is os.access() for the caller)
+                       ("exe_0700", 0o700), ("exe_0750", 0o750), ("exe_0500", 0o500), ("exe_0711", 0o711)):
         with vkernel.real_open(os.path.join(tmp, name), "wb") as f:
             f.write(b"#!/bin/sh\n")
         os.chmod(os.path.join(tmp, name), mode)
@@ -244,7 +246,12 @@ def gen_case(rng):
     if exe["form"].startswith("withheld") and rng.random() < 0.6:
         # the fallback of exe() looks at argv[0]
         argv0 = rng.choice([b"$T/real_exe", b"$T/plain_file", b"$T/real_dir", b"$T/gone", b"real_exe", b"$T/my exe",
-                            b"$T/exe_long_name_0123456789", b"/bin/sh", b"/nonexistent/x", b"$T/lit (deleted)"])
+                            b"$T/exe_long_name_0123456789", b"/bin/sh", b"/nonexistent/x", b"$T/lit (deleted)",
+                            b"$T/exe_0700", b"$T/exe_0750", b"$T/exe_0500", b"$T/exe_0711",
+                            # relative names (never a guess: the process may live in another directory than the caller - which
+                            # for half of the cases is the directory holding a program of that very name) and an absolute one
+                            # that is not normalized (reported as the process wrote it)
+                            b"./real_exe", b"real_dir/../real_exe", b"$T/real_dir/../real_exe", b"$T//real_exe"])
     case = dict(pid=rng.choice([7, 50, 4194303, 123456]), comm=_s(comm), zombie=rng.random() < 0.07,
                 cmd=gen_cmd(rng, argv0), env=gen_env(rng), exe=exe, cwd=gen_link(rng, "cwd"))
     return case
@@ -285,7 +292,8 @@ def boundary_cases():
               dict(form="deleted_literal", target="$T/lit"), dict(form="deleted_literal", target="$T/litdir"),
               dict(form="withheld"), dict(form="withheld_esrch")]
     for ln in links:
-        for argv0 in ("$T/real_exe", "$T/plain_file", "$T/real_dir", "$T/gone", "real_exe", "$T/my exe", ""):
+        for argv0 in ("$T/real_exe", "$T/plain_file", "$T/real_dir", "$T/gone", "real_exe", "$T/my exe", "",
+                      "$T/exe_0700", "$T/exe_0750", "$T/exe_0500", "./real_exe", "$T/real_dir/../real_exe"):
             for zombie in (False, True):
                 out.append(dict(base, comm="proc", zombie=zombie, exe=ln, cwd=ln,
                                 cmd=dict(kind="argv", argv=[argv0, "x"])))
@@ -465,6 +473,22 @@ def _cr_fold(x):
 
 
 def run_case(case, acc):
+    # the caller's own working directory is part of the configuration: for half of the cases it is the directory that holds the
+    # fixture programs (so that a relative argv[0] names an executable *of the caller's*)
+    tmp = setup()["tmp"]
+    old_cwd = os.getcwd()
+    inside = harness.chash(case)[-4] in "01234567"
+    if inside:
+        os.chdir(tmp)
+        acc.count("cases_run_with_the_callers_cwd_among_the_fixture_programs")
+    try:
+        _run_case(case, acc)
+    finally:
+        if inside:
+            os.chdir(old_cwd)
+
+
+def _run_case(case, acc):
     env = setup()
     ps, vkernel, ProcTable, tmp = env["ps"], env["vkernel"], env["ProcTable"], env["tmp"]
     comm_b = _b(case["comm"])
